@@ -7,7 +7,7 @@ PROP = dict(
           "(filters of depth <= 2 over _eq _ne _gt _ge _lt _le _in _nin incl. null operands, _and/_or/_not; 1-3 ordering keys with directions; limit; offset; documents or _count/_sum/_avg/_min/_max), "
           "each executed through ExecRequest and compared with the compiled model; metamorphic oracles on the implementation alone (lexicographic sortedness, limit/offset = slice of the unlimited result, "
           "filter and _not filter partition the collection, aggregates = arithmetic over the listed documents); then 1500 (thorough: 100000) malformed requests (span deletion/duplication, byte flips, deep nesting, "
-          "splices, token swaps) under recover and a deadline; one group probe per run (a collection whose values are chosen so that the printed forms of different value tuples run into each other, grouped by two and three fields: the groups must be the distinct tuples with their multiplicities); a case is one (collection, query); distinct = distinct query lines per collection"),
+          "splices, token swaps) under recover and a deadline; four groupings by one to three fields per case (with and without a filter; the groups and their sizes compared with the model); one group probe per run (a collection whose values are chosen so that the printed forms of different value tuples run into each other, grouped by two and three fields: the groups must be the distinct tuples with their multiplicities); a case is one (collection, query); distinct = distinct query lines per collection"),
     assumptions=[
         "floats are multiples of 1/8 of moderate size, so IEEE sums are exact; averages are one correctly rounded division, computed the same way by the model driver",
         "the fields of a collection are typed: two non-nil values of one field have the same kind (for other pairs the Go comparison would panic; the model orders by kind)",
